@@ -100,7 +100,7 @@ example : SafeAt ([0x78, 0x0A, 0x0A] ++ [0x23, 0x20, 0x61, 0x20, 0x23, 0x0A]) (3
 
 /-! ### the targets on concrete documents (kernel-checked) -/
 
-instance (src : Bytes) (p : Nat) : Decidable (SafeAt src p) := by unfold SafeAt; infer_instance
+instance instDecSafeAtTail (src : Bytes) (p : Nat) : Decidable (SafeAt src p) := by unfold SafeAt; infer_instance
 
 /-- the byte after the last inline child of every container is safe: ATX headings with and without closing sequence, with an
     escaped space before the closing `#`, without content, and without final line ending -/
